@@ -319,4 +319,456 @@ theorem Arr.fill_abs {a : Arr} {xs : List Val} (h : a.Abs xs) (v : Val) :
 theorem Arr.clear_abs {a : Arr} {xs : List Val} (h : a.Abs xs) : (a.clear).1.Abs [] :=
   ⟨rfl, rep_nil _, h.cap, h.fits⟩
 
+/-! ### index and range decoding (capi.c, value.c) -/
+
+theorem checkint_bounds (key : Arg) (max : Int) (i : Int) (hi : getterCheckint key max = some i) : 0 ≤ i ∧ i < max := by
+  unfold getterCheckint at hi
+  cases key with
+  | int n =>
+    simp only [] at hi
+    by_cases c1 : n < 0
+    · rw [if_pos c1] at hi; cases hi
+    · rw [if_neg c1] at hi
+      by_cases c2 : n ≥ max
+      · rw [if_pos c2] at hi; cases hi
+      · rw [if_neg c2] at hi; cases hi; omega
+  | nil => cases hi
+  | bad => cases hi
+
+theorem halfRange_bounds (a : Arg) (length r : Int) (hr : getHalfRange a length = some r) : 0 ≤ r ∧ r ≤ length := by
+  unfold getHalfRange at hr
+  cases hg : getInteger a with
+  | none => rw [hg] at hr; cases hr
+  | some raw =>
+    rw [hg] at hr
+    simp only [] at hr
+    by_cases c : (if raw < 0 then raw + (length + 1) else raw) < 0 ∨ (if raw < 0 then raw + (length + 1) else raw) > length
+    · rw [if_pos c] at hr; cases hr
+    · rw [if_neg c] at hr; cases hr; omega
+
+theorem slice_bounds (length : Int) (hl : 0 ≤ length) (s e : Option Arg) (st en : Int)
+    (h : getSlice length s e = some (st, en)) : 0 ≤ st ∧ st ≤ en ∧ en ≤ length := by
+  unfold getSlice at h
+  cases hs : getStartRange s length with
+  | none => rw [hs] at h; cases h
+  | some st' =>
+    rw [hs] at h
+    simp only [] at h
+    cases he : getEndRange e length with
+    | none => rw [he] at h; cases h
+    | some en' =>
+      rw [he] at h
+      simp only [Option.some.injEq, Prod.mk.injEq] at h
+      have hst : 0 ≤ st' ∧ st' ≤ length := by
+        unfold getStartRange at hs
+        cases s with
+        | none => cases hs; exact ⟨Int.le_refl 0, hl⟩
+        | some x =>
+          cases x with
+          | nil => cases hs; exact ⟨Int.le_refl 0, hl⟩
+          | int n => exact halfRange_bounds _ _ _ hs
+          | bad => exact halfRange_bounds _ _ _ hs
+      have hen : 0 ≤ en' ∧ en' ≤ length := by
+        unfold getEndRange at he
+        cases e with
+        | none => cases he; exact ⟨hl, Int.le_refl _⟩
+        | some x =>
+          cases x with
+          | nil => cases he; exact ⟨hl, Int.le_refl _⟩
+          | int n => exact halfRange_bounds _ _ _ he
+          | bad => exact halfRange_bounds _ _ _ he
+      obtain ⟨h1, h2⟩ := h
+      by_cases c : en' < st'
+      · rw [if_pos c] at h2; omega
+      · rw [if_neg c] at h2; omega
+
+/-! ### slice / insert / remove -/
+
+theorem rep_toArray_map {α : Type} (xs : List α) : Rep (xs.map some).toArray xs := by
+  intro i h
+  simp [h]
+
+/-- `cfun_array_slice` on a view holding `xs`: a fresh array with `xs[start, end)`, or the error -/
+theorem sliceOf_abs (xs : List Val) (hx : (xs.length : Int) ≤ i32max) (s e : Option Arg) :
+    (sliceOf (xs.map some) s e = none ∧ getSlice xs.length s e = none) ∨
+    ∃ st en r, getSlice xs.length s e = some (st, en) ∧ 0 ≤ st ∧ st ≤ en ∧ en ≤ xs.length ∧
+      sliceOf (xs.map some) s e = some r ∧ r.Abs ((xs.drop st.toNat).take (en - st).toNat) := by
+  unfold sliceOf
+  simp only [List.length_map]
+  cases hg : getSlice xs.length s e with
+  | none => left; exact ⟨rfl, rfl⟩
+  | some p =>
+    obtain ⟨st, en⟩ := p
+    right
+    have hb := slice_bounds xs.length (by omega) s e st en hg
+    refine ⟨st, en, _, rfl, hb.1, hb.2.1, hb.2.2, rfl, ⟨?_, ?_, ?_, ?_⟩⟩
+    · simp; omega
+    · simp only []
+      rw [← List.map_drop, ← List.map_take]
+      exact rep_toArray_map _
+    · simp; omega
+    · simp only []; omega
+
+/-- the list after inserting `ys` at position `p` -/
+def insertAtList (xs : List Val) (p : Nat) (ys : List Val) : List Val := xs.take p ++ ys ++ xs.drop p
+
+theorem getElem?_insertAtList (xs ys : List Val) (p i : Nat) (hp : p ≤ xs.length) :
+    (insertAtList xs p ys)[i]? =
+      if i < p then xs[i]? else if i < p + ys.length then ys[i - p]? else xs[i - ys.length]? := by
+  unfold insertAtList
+  by_cases h1 : i < p
+  · rw [if_pos h1, List.append_assoc, List.getElem?_append_left (by simp; omega), List.getElem?_take]
+    simp [h1]
+  · rw [if_neg h1]
+    rw [List.append_assoc, List.getElem?_append_right (by simp; omega)]
+    have hl : (List.take p xs).length = p := by simp; omega
+    rw [hl]
+    by_cases h2 : i < p + ys.length
+    · rw [if_pos h2, List.getElem?_append_left (by omega)]
+    · rw [if_neg h2, List.getElem?_append_right (by omega), List.getElem?_drop]
+      congr 1; omega
+
+/-- `cfun_array_insert`: decodes the index (negative = from the end, -1 appends), raises the error when it is out of
+`[0, count]` or the new count would not fit, otherwise splices -/
+theorem Arr.insert_abs {a : Arr} {xs : List Val} (h : a.Abs xs) (pos : Arg) (ys : List Val) :
+    (a.insert pos ys = (a, .err)) ∨
+    ∃ n p : Int, pos = .int n ∧ p = (if n < 0 then (xs.length : Int) + n + 1 else n) ∧ 0 ≤ p ∧ p ≤ xs.length ∧
+      (a.insert pos ys).2 = .ok ∧ (a.insert pos ys).1.Abs (insertAtList xs p.toNat ys) := by
+  unfold Arr.insert
+  have hce := h.count_eq
+  cases hg : getInteger pos with
+  | none => left; rfl
+  | some n =>
+    have hpos : pos = .int n := by
+      cases pos with
+      | int m => simp [getInteger] at hg; rw [hg]
+      | nil => cases hg
+      | bad => cases hg
+    simp only []
+    generalize hp : (if n < 0 then (a.count : Int) + n + 1 else n) = p
+    by_cases c1 : p < 0 ∨ p > (a.count : Int)
+    · left; rw [if_pos c1]
+    · rw [if_neg c1]
+      by_cases c2 : i32max - (ys.length : Int) < (a.count : Int)
+      · left; rw [if_pos c2]
+      · rw [if_neg c2]
+        right
+        obtain ⟨a', he, ha', hcc, hcnt⟩ := Arr.ensure_abs h ((a.count : Int) + ys.length) arrayInsertGrowth
+          growth_facts.2.2.1 (by omega) (by omega)
+        rw [he]
+        refine ⟨n, p, hpos, by rw [← hp, hce], by omega, by omega, rfl, ⟨?_, ?_, ?_, ha'.fits⟩⟩
+        · simp [insertAtList]; omega
+        · simp only []
+          have hpl : p.toNat ≤ xs.length := by omega
+          have hsz : xs.length + ys.length ≤ a'.cells.size := by have := ha'.cap; omega
+          have hrest : readAt a'.cells p.toNat (a.count - p.toNat) = ((xs.drop p.toNat).take (a.count - p.toNat)).map some :=
+            readAt_sub_of_rep ha'.rep _ _ (by omega)
+          intro i hi
+          have hil : i < xs.length + ys.length := by
+            have : (insertAtList xs p.toNat ys).length = xs.length + ys.length := by simp [insertAtList]; omega
+            omega
+          rw [getElem?_insertAtList xs ys p.toNat i hpl, getElem?_writeAt, getElem?_writeAt, hrest]
+          simp only [List.length_map, size_writeAt, List.length_take, List.length_drop]
+          by_cases h1 : i < p.toNat
+          · have n1 : ¬ (p.toNat ≤ i ∧ i < p.toNat + ys.length ∧ i < a'.cells.size) := by omega
+            have n2 : ¬ (p.toNat + ys.length ≤ i ∧ i < p.toNat + ys.length + min (a.count - p.toNat) (xs.length - p.toNat) ∧ i < a'.cells.size) := by omega
+            rw [if_neg n1, if_neg n2, if_pos h1]
+            exact ha'.rep i (by omega)
+          · rw [if_neg h1]
+            by_cases h2 : i < p.toNat + ys.length
+            · have y1 : p.toNat ≤ i ∧ i < p.toNat + ys.length ∧ i < a'.cells.size := by omega
+              rw [if_pos y1, if_pos h2]
+              have : i - p.toNat < ys.length := by omega
+              simp [this]
+            · have n1 : ¬ (p.toNat ≤ i ∧ i < p.toNat + ys.length ∧ i < a'.cells.size) := by omega
+              have y2 : p.toNat + ys.length ≤ i ∧ i < p.toNat + ys.length + min (a.count - p.toNat) (xs.length - p.toNat) ∧ i < a'.cells.size := by omega
+              rw [if_neg n1, if_pos y2, if_neg h2]
+              have h3 : i - (p.toNat + ys.length) < a.count - p.toNat := by omega
+              have h4 : p.toNat + (i - (p.toNat + ys.length)) = i - ys.length := by omega
+              have h5 : i - ys.length < xs.length := by omega
+              simp [h3, List.getElem?_drop, h4, h5]
+        · simpa [size_writeAt] using ha'.cap
+
+/-- `cfun_array_remove` (clamp shape read off the current source): decodes the index, raises the error when it is out
+of `[0, count]` or `n` is ill-typed / negative, otherwise removes `min n (count - at)` elements.  Never undefined. -/
+theorem Arr.remove_abs {a : Arr} {xs : List Val} (h : a.Abs xs) (pos : Arg) (n : Option Arg) :
+    (a.remove pos n = (a, .err)) ∨
+    ∃ p m : Int, 0 ≤ p ∧ p ≤ xs.length ∧ 0 ≤ m ∧ p + m ≤ xs.length ∧
+      (a.remove pos n).2 = .ok ∧ (a.remove pos n).1.Abs (xs.take p.toNat ++ xs.drop (p + m).toNat) := by
+  unfold Arr.remove Arr.removeWith
+  simp only [removeClampNoOverflow]
+  have hce := h.count_eq
+  cases hg : getInteger pos with
+  | none => left; rfl
+  | some q =>
+    simp only []
+    generalize hp : (if q < 0 then (a.count : Int) + q else q) = p
+    by_cases c1 : p < 0 ∨ p > (a.count : Int)
+    · left; rw [if_pos c1]
+    · rw [if_neg c1]
+      cases hn : removeCount n with
+      | none => left; rfl
+      | some m0 =>
+        simp only [Bool.not_true, Bool.false_and, if_true]
+        have hm0 : 0 ≤ m0 := by
+          unfold removeCount at hn
+          cases n with
+          | none => cases hn; omega
+          | some x =>
+            simp only [] at hn
+            cases hx : getInteger x with
+            | none => rw [hx] at hn; cases hn
+            | some v =>
+              rw [hx] at hn
+              simp only [] at hn
+              by_cases cv : v < 0
+              · rw [if_pos cv] at hn; cases hn
+              · rw [if_neg cv] at hn; cases hn; omega
+        right
+        generalize hm : (if m0 > (a.count : Int) - p then (a.count : Int) - p else m0) = m
+        have hmb : 0 ≤ m ∧ p + m ≤ a.count := by
+          by_cases cc : m0 > (a.count : Int) - p
+          · rw [if_pos cc] at hm; omega
+          · rw [if_neg cc] at hm; omega
+        refine ⟨p, m, by omega, by omega, hmb.1, by omega, ?_, ?_⟩
+        · simp
+        · simp only [Bool.false_eq_true, if_false]
+          refine ⟨?_, ?_, by simpa [size_writeAt] using h.cap, h.fits⟩
+          · simp; omega
+          · have htail : readAt a.cells (p + m).toNat (a.count - p.toNat - m.toNat) =
+                ((xs.drop (p + m).toNat).take (a.count - p.toNat - m.toNat)).map some :=
+              readAt_sub_of_rep h.rep _ _ (by omega)
+            intro i hi
+            have hil : i < xs.length - m.toNat := by
+              have : (xs.take p.toNat ++ xs.drop (p + m).toNat).length = xs.length - m.toNat := by simp; omega
+              omega
+            rw [getElem?_writeAt, htail]
+            simp only [List.length_map, List.length_take, List.length_drop]
+            by_cases h1 : i < p.toNat
+            · have n1 : ¬ (p.toNat ≤ i ∧ i < p.toNat + min (a.count - p.toNat - m.toNat) (xs.length - (p + m).toNat) ∧ i < a.cells.size) := by omega
+              rw [if_neg n1, List.getElem?_append_left (by simp; omega), List.getElem?_take]
+              simp only [h1, if_true]
+              exact h.rep i (by omega)
+            · have hsz := h.rep.len_le
+              have y1 : p.toNat ≤ i ∧ i < p.toNat + min (a.count - p.toNat - m.toNat) (xs.length - (p + m).toNat) ∧ i < a.cells.size := by omega
+              rw [if_pos y1, List.getElem?_append_right (by simp; omega)]
+              have hl : (List.take p.toNat xs).length = p.toNat := by simp; omega
+              rw [hl]
+              have h3 : i - p.toNat < a.count - p.toNat - m.toNat := by omega
+              have h5 : (p + m).toNat + (i - p.toNat) < xs.length := by omega
+              simp [h3, h5]
+
+/-- `janet_put` on an array: an ill-typed / negative / too large key raises the error; a key past the end first
+extends the array with nil -/
+theorem Arr.put_abs {a : Arr} {xs : List Val} (h : a.Abs xs) (key : Arg) (v : Val) :
+    (a.put key v = (a, .err)) ∨
+    ∃ i : Int, key = .int i ∧ 0 ≤ i ∧ i < i32max - 1 ∧ (a.put key v).2 = .ok ∧
+      (a.put key v).1.Abs ((if i ≥ xs.length then xs ++ List.replicate (i.toNat + 1 - xs.length) vNil else xs).set i.toNat v) := by
+  unfold Arr.put
+  have hce := h.count_eq
+  cases hc : getterCheckint key (i32max - 1) with
+  | none => left; rfl
+  | some i =>
+    right
+    have hb := checkint_bounds key _ i hc
+    have hkey : key = .int i := by
+      unfold getterCheckint at hc
+      cases key with
+      | int m =>
+        simp only [] at hc
+        by_cases c1 : m < 0
+        · rw [if_pos c1] at hc; cases hc
+        · rw [if_neg c1] at hc
+          by_cases c2 : m ≥ i32max - 1
+          · rw [if_pos c2] at hc; cases hc
+          · rw [if_neg c2] at hc; cases hc; rfl
+      | nil => cases hc
+      | bad => cases hc
+    refine ⟨i, hkey, hb.1, hb.2, ?_⟩
+    simp only []
+    by_cases c : i ≥ (a.count : Int)
+    · have c' : i ≥ (xs.length : Int) := by omega
+      rw [if_pos c, if_pos c']
+      have hs := Arr.setcount_abs h (i + 1) (by have := i32max_eq; omega)
+      have e1 : ¬ (i + 1 < 0) := by omega
+      have e2 : i + 1 > (xs.length : Int) := by omega
+      rw [if_neg e1, if_pos e2] at hs
+      rw [hs.1]
+      simp only []
+      have hA := hs.2
+      have e3 : (i + 1).toNat - xs.length = i.toNat + 1 - xs.length := by omega
+      rw [e3] at hA
+      refine ⟨by first | rfl | trivial, ⟨?_, ?_, by simpa using hA.cap, hA.fits⟩⟩
+      · simp [hA.count_eq]
+      · intro j hj
+        rw [Array.getElem?_setIfInBounds]
+        have hlen : j < (xs ++ List.replicate (i.toNat + 1 - xs.length) vNil).length := by simpa using hj
+        by_cases hji : i.toNat = j
+        · subst hji
+          have : i.toNat < (a.setcount (i + 1)).1.cells.size := by
+            have := hA.rep.len_le; omega
+          have hlen2 : i.toNat < xs.length + (i.toNat + 1 - xs.length) := by omega
+          simp [this, hlen2]
+        · simp [hji, hA.rep j hlen]
+    · have c' : ¬ i ≥ (xs.length : Int) := by omega
+      rw [if_neg c, if_neg c']
+      refine ⟨by first | rfl | trivial, ⟨by simp [hce], ?_, by simpa using h.cap, h.fits⟩⟩
+      intro j hj
+      rw [Array.getElem?_setIfInBounds]
+      have hlen : j < xs.length := by simpa using hj
+      by_cases hji : i.toNat = j
+      · subst hji
+        have : i.toNat < a.cells.size := by have := h.rep.len_le; omega
+        simp [this, hlen]
+      · simp [hji, h.rep j hlen]
+
+/-- `janet_putindex` on an array (shape read off the current source: the gap is nil-filled): in range it overwrites,
+past the end it extends with nil up to the index -/
+theorem Arr.putindex_abs {a : Arr} {xs : List Val} (h : a.Abs xs) (index : Int) (v : Val)
+    (h0 : 0 ≤ index) (h1 : index < i32max) :
+    (a.putindex index v).2 = .ok ∧
+    (a.putindex index v).1.Abs (if index ≥ xs.length then xs ++ List.replicate (index.toNat - xs.length) vNil ++ [v]
+                                 else xs.set index.toNat v) := by
+  unfold Arr.putindex Arr.putindexWith
+  simp only [putindexFillsArrayGap]
+  have hce := h.count_eq
+  have hn0 : ¬ index < 0 := by omega
+  rw [if_neg hn0]
+  by_cases c : index ≥ (a.count : Int)
+  · have c' : index ≥ (xs.length : Int) := by omega
+    rw [if_pos c, if_pos c']
+    have hn1 : ¬ index + 1 > i32max := by omega
+    rw [if_neg hn1]
+    obtain ⟨a', he, ha', hcc, hcnt⟩ := Arr.ensure_abs h (index + 1) putindexGrowth growth_facts.2.2.2.2 (by omega) (by omega)
+    rw [he]
+    simp only [if_true]
+    have hsz : index.toNat + 1 ≤ a'.cells.size := by have := ha'.cap; omega
+    have r1 := rep_write_append ha'.rep (List.replicate (index.toNat - xs.length) vNil) (by simp; omega)
+    have hl1 : (xs ++ List.replicate (index.toNat - xs.length) vNil).length = index.toNat := by simp; omega
+    have r2 := rep_set_push r1 v (by rw [hl1, size_writeAt]; omega)
+    rw [hl1] at r2
+    refine ⟨by first | rfl | trivial, ⟨?_, ?_, ?_, ha'.fits⟩⟩
+    · simp; omega
+    · simp only []
+      rw [hce]
+      simpa using r2
+    · simpa [size_writeAt] using ha'.cap
+  · have c' : ¬ index ≥ (xs.length : Int) := by omega
+    rw [if_neg c, if_neg c']
+    refine ⟨rfl, ⟨by simp [hce], ?_, by simpa using h.cap, h.fits⟩⟩
+    intro j hj
+    rw [Array.getElem?_setIfInBounds]
+    have hlen : j < xs.length := by simpa using hj
+    by_cases hji : index.toNat = j
+    · subst hji
+      have : index.toNat < a.cells.size := by have := h.rep.len_le; omega
+      simp [this, hlen]
+    · simp [hji, h.rep j hlen]
+
+/-- pushing a list of values one by one (the loops of array/concat and array/join) -/
+theorem Arr.pushAll_abs (ys : List Val) : ∀ {a : Arr} {xs : List Val}, a.Abs xs →
+    (xs.length : Int) + ys.length ≤ i32max →
+    (a.pushAll (ys.map some)).2 = .ok ∧ (a.pushAll (ys.map some)).1.Abs (xs ++ ys) := by
+  induction ys with
+  | nil => intro a xs h _; simpa [Arr.pushAll] using h
+  | cons y rest ih =>
+    intro a xs h hb
+    simp only [List.map_cons]
+    unfold Arr.pushAll
+    have hce := h.count_eq
+    have hlt : ¬ (a.count : Int) = i32max := by simp at hb; omega
+    rw [if_neg hlt]
+    obtain ⟨a', he, ha', hc, hcnt⟩ := Arr.ensure_abs h (a.count + 1) arrayPushGrowth growth_facts.1 (by omega) (by simp at hb; omega)
+    rw [he]
+    simp only []
+    have hsz : xs.length < a'.cells.size := by have := ha'.cap; omega
+    have hA : ({ a' with cells := a'.cells.setIfInBounds a.count (some y), count := a.count + 1 } : Arr).Abs (xs ++ [y]) := by
+      refine ⟨by simp [hce], ?_, by simpa using ha'.cap, ha'.fits⟩
+      rw [hce]
+      exact rep_set_push ha'.rep y hsz
+    have := ih hA (by simp at hb ⊢; omega)
+    simpa using this
+
+/-- parts of array/concat at the list level -/
+inductive SPart where
+  | one (v : Val)
+  | many (ys : List Val)
+  | self
+
+def SPart.toPart : SPart → Part
+  | .one v => .one v
+  | .many ys => .many (ys.map some)
+  | .self => .self
+
+/-- what a part contributes when the destination currently holds `acc` -/
+def SPart.items (p : SPart) (acc : List Val) : List Val :=
+  match p with
+  | .one v => [v]
+  | .many ys => ys
+  | .self => acc
+
+def specConcat (xs : List Val) (ps : List SPart) : List Val :=
+  ps.foldl (fun acc p => acc ++ p.items acc) xs
+
+/-- `cfun_array_concat`: appends every part in order (an array passed to itself contributes its contents at that
+moment), provided the final length fits `int32_t` -/
+theorem Arr.concat_abs (ps : List SPart) : ∀ {a : Arr} {xs : List Val}, a.Abs xs →
+    ((specConcat xs ps).length : Int) ≤ i32max →
+    (a.concat (ps.map SPart.toPart)).2 = .ok ∧ (a.concat (ps.map SPart.toPart)).1.Abs (specConcat xs ps) := by
+  induction ps with
+  | nil => intro a xs h _; exact ⟨rfl, h⟩
+  | cons p rest ih =>
+    intro a xs h hb
+    have hmono : ∀ (l : List SPart) (zs : List Val), zs.length ≤ (specConcat zs l).length := by
+      intro l
+      induction l with
+      | nil => intro zs; exact Nat.le_refl _
+      | cons q l ihl =>
+        intro zs
+        have := ihl (zs ++ q.items zs)
+        simp only [specConcat, List.foldl_cons] at this ⊢
+        simp at this
+        omega
+    have hstep : specConcat xs (p :: rest) = specConcat (xs ++ p.items xs) rest := rfl
+    rw [hstep] at hb ⊢
+    have hlen := hmono rest (xs ++ p.items xs)
+    simp only [List.map_cons]
+    unfold Arr.concat
+    cases p with
+    | one v =>
+      simp only [SPart.toPart, SPart.items] at hb hlen ⊢
+      have := Arr.pushAll_abs [v] h (by simp at hlen ⊢; omega)
+      simp only [List.map_cons, List.map_nil] at this
+      rw [this.1]
+      exact ih this.2 hb
+    | many ys =>
+      simp only [SPart.toPart, SPart.items] at hb hlen ⊢
+      have := Arr.pushAll_abs ys h (by simp at hlen ⊢; omega)
+      rw [this.1]
+      exact ih this.2 hb
+    | self =>
+      simp only [SPart.toPart, SPart.items] at hb hlen ⊢
+      have hce := h.count_eq
+      obtain ⟨a', he, ha', hc, hcnt⟩ := Arr.ensure_abs h ((a.count : Int) + a.count) arrayPushGrowth growth_facts.1 (by omega) (by simp at hlen; omega)
+      rw [he]
+      simp only []
+      have := Arr.pushAll_abs xs ha' (by simp at hlen ⊢; omega)
+      rw [h.items, this.1]
+      exact ih this.2 hb
+
+/-- `cfun_array_trim` keeps the contents and makes capacity = count -/
+theorem Arr.trim_abs {a : Arr} {xs : List Val} (h : a.Abs xs) : (a.trim).2 = .ok ∧ (a.trim).1.Abs xs := by
+  unfold Arr.trim
+  have hce := h.count_eq
+  by_cases h0 : a.count ≠ 0
+  · rw [if_pos h0]
+    by_cases h1 : (a.count : Int) < a.capacity
+    · rw [if_pos h1]
+      refine ⟨rfl, ⟨hce, rep_realloc h.rep _ (by omega), by simp [size_realloc], by have := h.fits; simp only []; omega⟩⟩
+    · rw [if_neg h1]; exact ⟨rfl, h⟩
+  · rw [if_neg h0]
+    have hx : xs = [] := List.length_eq_zero_iff.mp (by omega)
+    subst hx
+    exact ⟨rfl, ⟨hce, rep_nil _, by simp, by have := i32max_eq; simp only []; omega⟩⟩
+
 end JanetModel.Seq
